@@ -150,6 +150,49 @@ Theorem C09_code_conde_answers : forall ds uf gss e st x,
 Proof. exact MiniGenSpec.code_conde_answers. Qed.
 Print Assumptions C09_code_conde_answers.
 
+(* IfThenElseO / ifThenElseLoop (mini/ifthenelse.go) and OnceO / onceLoop (mini/once.go) as translated from the Go sources on
+   every run (gen/LoopsGen.v, genmicro -loops): what they return is the stream the model assigns to GIfte / GOnce - so the
+   clauses C09_ifte_* / C09_once_* above are statements about the text -, they return it whenever the recursion budget covers
+   the mature cells of the condition's first segment, and they never panic *)
+Require GMK.GoLiteS GMK.gen.StreamGen GMK.gen.LoopsGen GMK.StreamOpsSpec GMK.StreamLoopsSpec.
+
+Theorem C09_code_ifte_is_model : forall ds uf f c t el e st r,
+  LoopsGen.gs_IfThenElseO f ds uf (StreamOpsSpec.model_goal ds uf c e) (StreamOpsSpec.model_goal ds uf t e)
+    (StreamOpsSpec.model_goal ds uf el e) (Some st) = GoLite.Ret r ->
+  r = eval ds uf (GIfte c t el) e st.
+Proof. exact StreamLoopsSpec.gs_IfThenElseO_is_eval. Qed.
+Print Assumptions C09_code_ifte_is_model.
+
+Theorem C09_code_ifte_returns : forall ds uf B f c t el e st,
+  StreamOpsSpec.ends_err (eval ds uf c e st) = false ->
+  (forall a, In a (StreamOpsSpec.heads (eval ds uf c e st)) ->
+     StreamOpsSpec.ends_err (eval ds uf t e a) = false /\ (StreamOpsSpec.spine (eval ds uf t e a) < B)%nat) ->
+  (S (StreamOpsSpec.spine (eval ds uf c e st) + B) < f)%nat ->
+  LoopsGen.gs_IfThenElseO f ds uf (StreamOpsSpec.model_goal ds uf c e) (StreamOpsSpec.model_goal ds uf t e)
+    (StreamOpsSpec.model_goal ds uf el e) (Some st) = GoLite.Ret (eval ds uf (GIfte c t el) e st).
+Proof. exact StreamLoopsSpec.gs_IfThenElseO_complete. Qed.
+Print Assumptions C09_code_ifte_returns.
+
+(* an immature condition cell is wrapped into the suspended loop, it is not looped over on the spot *)
+Theorem C09_code_ifte_suspends : forall ds uf f t el e st th,
+  LoopsGen.gs_ifThenElseLoop (S f) ds uf (StreamOpsSpec.model_goal ds uf t e) (StreamOpsSpec.model_goal ds uf el e) (Some st) (SSusp th)
+  = GoLite.Ret (SSusp (TIfte th t el e st)) /\
+  force ds uf (TIfte th t el e st) = StreamLoopsSpec.ifte_loop ds uf t el e st (force ds uf th).
+Proof. exact (fun ds uf f t el e st th => conj (StreamLoopsSpec.gs_ifte_lazy ds uf f t el e st th) (StreamLoopsSpec.force_ifte_loop ds uf th t el e st)). Qed.
+Print Assumptions C09_code_ifte_suspends.
+
+Theorem C09_code_once_is_model : forall ds uf f g e st,
+  (forall r, LoopsGen.gs_OnceO f ds uf (StreamOpsSpec.model_goal ds uf g e) (Some st) = GoLite.Ret r -> r = eval ds uf (GOnce g) e st) /\
+  (eval ds uf g e st <> SErr ->
+   LoopsGen.gs_OnceO (S f) ds uf (StreamOpsSpec.model_goal ds uf g e) (Some st) = GoLite.Ret (eval ds uf (GOnce g) e st)).
+Proof. exact (fun ds uf f g e st => conj (StreamLoopsSpec.gs_OnceO_is_eval ds uf f g e st) (StreamLoopsSpec.gs_OnceO_complete ds uf f g e st)). Qed.
+Print Assumptions C09_code_once_is_model.
+
+Theorem C09_code_loops_never_panic : forall ds uf f g1 g2 g3 st,
+  LoopsGen.gs_IfThenElseO f ds uf g1 g2 g3 (Some st) <> GoLite.Panic /\ LoopsGen.gs_OnceO f ds uf g1 (Some st) <> GoLite.Panic.
+Proof. exact (fun ds uf f g1 g2 g3 st => conj (StreamLoopsSpec.gs_IfThenElseO_never_panics ds uf f g1 g2 g3 st) (StreamLoopsSpec.gs_OnceO_never_panics ds uf f g1 st)). Qed.
+Print Assumptions C09_code_loops_never_panic.
+
 Example C09_code_nonvacuous :
   MiniGen.gn_Conde 5 [[GSucc; GFail]; []; [GSucc]]
   = GoLite.Ret (GDisj (GZzz (GConj (GZzz GSucc) (GZzz GFail))) (GDisj (GZzz GSucc) (GZzz (GZzz GSucc)))).
